@@ -2,7 +2,7 @@
 from .lib.match import *
 
 SELECT = (r'characteristic_value_access$|characteristic_value_read_access$|characteristic_value_write_access$|^bluetoe::details::attribute_value_read_access$|^bluetoe::details::attribute_value_read_only_access$'
-          r'|^bluetoe::details::generate_attribute::char_declaration_access$|^bluetoe::server::l2cap_output$')
+          r'|^bluetoe::details::generate_attribute::(char_declaration_access|access)$|^bluetoe::service::\w*access$|^bluetoe::server::l2cap_output$')
 UNITS = lambda u: u in ('w_inst_att',) or u.startswith('t_char') or u.startswith('t_att_read') or u.startswith('t_att_write') or u.startswith('t_read_write')
 META = {
     'level': 'sibling agreement over the value implementations (bound variable, fixed value, constant string/blob, handler based): the code that produces value bytes is selected by the same constant '
@@ -18,12 +18,46 @@ def has_const_guard(fn, node, const, truth=True):
     return has_atom(guard_atoms(fn, node), lambda n: is_name(n, const), {'!='} if truth else {'=='}, lambda o: cval(o) == 0)
 
 
+def offset_rule(chk, facts):
+    """Invalid Offset exactly past the end: offset == size is a valid (empty) read, the last step of every Read Long"""
+    n_sites = 0
+    for fn in facts.functions:
+        if fn.kind not in ('pattern', 'plain') or '/tests/' in (fn.file or '') or '/witness/' in (fn.file or ''):
+            continue
+        for r in fn.returns():
+            v = ret_value(r)
+            if v is None or strip_casts(v).n != 'invalid_offset':
+                continue
+            ats = [(l, op, rr) for l, op, rr in guard_atoms(fn, r) if (not isinstance(l, int) and 'buffer_offset' in strip_casts(l).text()) or (not isinstance(rr, int) and 'buffer_offset' in strip_casts(rr).text())]
+            chk.require(bool(ats), '%s line %d: invalid_offset is returned under a condition on the offset that is not a conjunction of comparisons (idiom not recognised)' % (fn.q, r.l))
+            if not ats:
+                continue
+            n_sites += 1
+            norm = []
+            for l, op, rr in ats:
+                if not isinstance(l, int) and strip_casts(l).text().endswith('buffer_offset'):
+                    norm.append((op, rr))
+                elif not isinstance(rr, int) and strip_casts(rr).text().endswith('buffer_offset'):
+                    norm.append((SWAP[op], l))
+                else:
+                    norm.append(('?', l))
+            ok = len(norm) == 1 and norm[0][0] == '>'
+            size = norm[0][1] if ok else None
+            stxt = (size.text() if not isinstance(size, int) else str(size)) if size is not None else '?'
+            chk.instance('invalid-offset-only-past-end', fn, '%s::%s line %d: invalid_offset iff buffer_offset > %s' % (fn.q.split('::')[-2], fn.name, r.l, stxt[:40]), ok,
+                         '' if ok else 'Invalid Offset is returned under (%s): an offset equal to the value length must give an empty response (it ends every Read Long of a value whose length is a multiple of MTU-1), and smaller offsets must be served'
+                         % ' && '.join('offset %s %s' % (o, x.text()[:30] if not isinstance(x, int) else x) for o, x in norm), node=r, key='%s::%s@%s' % (fn.q.split('::')[-2], fn.name, stxt[:30]))
+    return n_sites
+
+
 def run(chk, facts, tier):
     chk.rule('read-selected-by-has-read-access', 'in every characteristic_value_access the value bytes are produced only where has_read_access selects it (tag dispatch on has_read_access, or behind a has_read_access test)', floor=4)
     chk.rule('write-selected-by-has-write-access', 'values are stored only where has_write_access (or the presence of a write handler) selects it; implementations without write access refuse', floor=4)
     chk.rule('properties-byte', 'char_declaration_access sets each property bit from its own constant: read<-has_read_access, write<-has_write_access && !only_wwr, wwr<-(only_)write_without_response, notify, indicate', floor=1)
     chk.rule('bounded-write', 'bind_characteristic_value write: offset > sizeof(T) -> invalid_offset, offset + size > sizeof(T) -> invalid_attribute_value_length, then copy(buffer, buffer + size, ptr + offset)', floor=1)
     chk.rule('bounded-read', 'reads test buffer_offset against the value size (invalid_offset) and clamp buffer_size to size - offset before copying', floor=3)
+    chk.rule('invalid-offset-only-past-end', 'every value/declaration/descriptor access returns invalid_offset exactly under buffer_offset > <value size> (one comparison, strict): offset == size is served with an empty value', floor=7)
+    offset_rule(chk, facts)
     chk.rule('notification-not-blocked-by-read-permission', 'a value implementation that can notify/indicate does not refuse the access l2cap_output uses for the notification because of no_read_access', floor=2)
     impls = [f for f in facts.functions if f.name == 'characteristic_value_access' and f.kind == 'pattern']
     chk.require(len(impls) >= 4, 'expected at least 4 characteristic_value_access patterns')
